@@ -127,6 +127,7 @@ def h_step_sack(ctx, q, nout, ngaps):
         _check_inv(ctx, t, "pre")
         s = SackChunk()
         adv = ctx.int("cum_advance", -1, q + 1)  # cumulative TSN relative to base-1
+        ctx.assume(adv <= q + nout, "the peer acknowledges only TSNs that were assigned (a SACK beyond that is dropped, C05)")
         s.cumulative_tsn = (base - 1 + adv) & U32
         s.advertised_rwnd = 131072
         s.gaps = []
